@@ -18,7 +18,7 @@ def modelName : String := "cal"
 
 def intList : Sexp → Option (List Int)
   | .node (.atom "L" :: xs) => xs.mapM Sexp.toInt?
-  | _ => none
+  | s => s.toInt?.map fun n => [n]      -- a scalar where a list is expected: `as_list` (weekend = 6)
 
 def optIntList : Sexp → Option (Option (List Int))
   | .atom "N" => some none
@@ -28,11 +28,16 @@ def optInt : Sexp → Option (Option Int)
   | .atom "N" => some none
   | s => s.toInt?.map some
 
+/-- `adj = (adj or self.adj or 'm').lower()` and then `startswith('f'/'p'/'m')` (_drange.py:542-558): only the first
+letter of the spelling counts, in either case (`'F'`, `'following'`, `'Previous'`, `'modified'`) -/
 def adjOf (c : Cal) : Sexp → Option Adj
-  | .atom "f" => some .f
-  | .atom "p" => some .p
-  | .atom "m" => some .m
   | .atom "d" => some c.adj      -- adj = None: the calendar's own convention
+  | .atom s =>
+      match s.toLower.toList.head? with
+      | some 'f' => some .f
+      | some 'p' => some .p
+      | some 'm' => some .m
+      | _ => none
   | _ => none
 
 def okInt (n : Int) : String := s!"ok I:{n}"
